@@ -2,6 +2,7 @@
 # tools/seedverify.sh <patch.diff> <demo.rs> : confirm a seeded change in a scratch worktree of /repo
 #   - it applies and compiles, the repository's own tests pass with it,
 #   - the demonstration test fails with it and passes without it.
+# DEMO_FLAGS=--release runs the demonstration in the release profile (changes that show only there).
 # The worktree is removed afterwards.  Prints one line: CONFIRMED / REJECTED <why>.
 set -u
 patch=$(readlink -f "$1"); demo=$(readlink -f "$2")
@@ -12,10 +13,10 @@ cleanup() { git -C /repo worktree remove --force "$wt" 2>/dev/null; rm -rf "$wt"
 trap cleanup EXIT
 mkdir -p "$wt/tests"; cp "$demo" "$wt/tests/seed_demo.rs"
 cd "$wt"
-clean=$(cargo test --offline --test seed_demo 2>&1 | grep "^test result" | tail -1)
+clean=$(cargo test --offline ${DEMO_FLAGS:-} --test seed_demo 2>&1 | grep "^test result" | tail -1)
 git apply "$patch" || { echo "REJECTED patch does not apply"; exit 1; }
 suite=$(cargo test --offline --lib 2>&1 | grep "^test result" | tail -1)
-mut=$(cargo test --offline --test seed_demo 2>&1 | grep "^test result\|error\[" | tail -1)
+mut=$(cargo test --offline ${DEMO_FLAGS:-} --test seed_demo 2>&1 | grep "^test result\|error\[" | tail -1)
 echo "clean: $clean"; echo "suite: $suite"; echo "mutant: $mut"
 case "$clean" in *"ok."*) ;; *) echo "REJECTED demo fails on clean tree"; exit 1;; esac
 case "$suite" in *"ok. 88 passed"*) ;; *) echo "REJECTED suite"; exit 1;; esac
